@@ -10,6 +10,11 @@
 //      Ok(2*(n-index) - 1), and Err(IntegerOverflow) iff 2*(n-index) does not fit a usize.
 // The contract is inserted in place above the real function (units.d/c14_decompress.py) and proved by
 // `proof_for_contract`; the plain harness states the same thing with replayable assertions.
+//
+// `#[kani::unwind(2)]`: the function has no loop; the bound only stops CBMC from unwinding the drop glue
+// of InvocationError variants that hold vectors (`ok_or(InvocationError::IntegerOverflow)` drops its
+// argument on the Some path). Those loops are unreachable (the value is always IntegerOverflow); the
+// unwinding assertions that Kani adds are part of the proof, so the bound is checked, not assumed.
 #![allow(dead_code, unused_imports)]
 use super::{InvocationError, get_variant_selector};
 
@@ -32,6 +37,7 @@ pub fn selector_post(n: usize, index: usize, r: &Result<usize, InvocationError>)
 }
 
 #[kani::proof_for_contract(get_variant_selector)]
+#[kani::unwind(2)]
 fn c14_variant_selector_contract() {
     let n: usize = kani::any();
     let index: usize = kani::any();
@@ -43,6 +49,7 @@ fn c14_variant_selector_contract() {
 
 // Same statement as a plain harness (a failed `ensures` has no concrete playback).
 #[kani::proof]
+#[kani::unwind(2)]
 fn c14_variant_selector_total() {
     let n: usize = kani::any();
     let index: usize = kani::any();
@@ -56,6 +63,7 @@ fn c14_variant_selector_total() {
 // Lemma: within one enum, distinct variant indices get distinct selectors (whenever both exist), so the
 // selector identifies the variant.
 #[kani::proof]
+#[kani::unwind(2)]
 fn c14_variant_selector_injective() {
     let n: usize = kani::any();
     let i: usize = kani::any();
@@ -70,6 +78,7 @@ fn c14_variant_selector_injective() {
 
 // The stated precondition is needed: an index beyond the variant count does panic (n - index underflows).
 #[kani::proof]
+#[kani::unwind(2)]
 #[kani::should_panic]
 fn c14_variant_selector_pre_needed() {
     let n: usize = kani::any();
